@@ -271,7 +271,18 @@ pub struct Finding {
 
 pub fn load_findings() -> Vec<Finding> {
     let mut out = vec![];
-    let txt = std::fs::read_to_string(format!("{}/known_findings.jsonl", crate::env::root())).unwrap_or_default();
+    let mut txt = std::fs::read_to_string(format!("{}/known_findings.jsonl", crate::env::root())).unwrap_or_default();
+    // per-property files known_findings.d/CXX.jsonl (same format), read in name order
+    if let Ok(rd) = std::fs::read_dir(format!("{}/known_findings.d", crate::env::root())) {
+        let mut files: Vec<_> = rd.filter_map(|e| e.ok()).map(|e| e.path()).collect();
+        files.sort();
+        for f in files {
+            if f.extension().map(|x| x == "jsonl").unwrap_or(false) {
+                txt.push('\n');
+                txt.push_str(&std::fs::read_to_string(&f).unwrap_or_default());
+            }
+        }
+    }
     for line in txt.lines() {
         let line = line.trim();
         if line.is_empty() || line.starts_with('#') || line.starts_with("fixed:") {
